@@ -10,7 +10,7 @@
 From Coq Require Import List ZArith Bool.
 From Coq Require Import Reals.
 From RV Require Import Gen.Schemes C01.FreeAlg C01.Model C01.ProofsSaba C01.ProofsEos C01.ProofsJanus
-  C01.ProofsWhfast C01.ProofsWhfast17 Common.Num Common.RealNum C01.Jerk C01.JerkProofs.
+  C01.ProofsWhfast C01.ProofsWhfast17 C01.FreeAlgX C01.ModelX C01.FreeAlg3 C01.Tables C01.ProofsX C01.ProofsX17 C01.ProofsTables C01.JerkDeriv Common.Num Common.RealNum C01.Jerk C01.JerkProofs.
 Import ListNotations.
 Open Scope Z_scope.
 
@@ -116,6 +116,73 @@ Theorem C01_jerk_third_law : forall (c : nat) (v G : R) bs vs nact nreal starti 
   mom c bs (jerk RNum v G bs vs nact nreal starti startj tp) = mom c bs vs.
 Proof. exact jerk_momentum. Qed.
 Print Assumptions C01_jerk_third_law.
+
+(* ---------------- round 2: modified-kick schemes; the commutator [B,[A,B]] = 2BAB - BBA - ABB lives in the free algebra
+   (C01/FreeAlgX.v); normalisation conventions of the two jerk routines are stated in C01/ModelX.v (trusted, frozen). *)
+
+(* SABA CM (modified-kick corrector) 0x100: no eps^2 h^2 term (and plain SABA1 has one);
+   0x101..0x103: gradings (4,4,4), (6,4,4), (8,4,4) at 1e-25, sharp one degree beyond in the one-B and two-B classes,
+   and the same schemes without corrector do have the eps^2 h^2 term *)
+Theorem C01_saba_cm_order :
+  saba_cm1_ok = true /\ (forall r, In r [1; 2; 3]%nat -> saba_cm_ok r = true) /\ (forall r, In r [1; 2; 3]%nat -> saba_cm_sharp r = true).
+Proof. exact (conj saba_cm1 (conj (proj1 (forallb_forall saba_cm_ok [1; 2; 3]%nat) saba_cm_all)
+                                  (proj1 (forallb_forall saba_cm_sharp [1; 2; 3]%nat) saba_cm_sharp_all))). Qed.
+Print Assumptions C01_saba_cm_order.
+
+(* WHFast MODIFIEDKICK kernel exp(dt B + dt^3/24 [B,[A,B]]) with corrector k in {3,5,7,11,17}: eps h^(k+1) + eps^2 h^4 (+ eps^3 h^4),
+   sharp at (length 5, two B) *)
+Theorem C01_whfast_modifiedkick_order :
+  (forall k, In k corr_small -> whfast_mk_ok k = true) /\ (forall k, In k corr_small -> whfast_mk_sharp k = true) /\ whfast_mk_ok 17 = true.
+Proof. exact (conj (proj1 (forallb_forall whfast_mk_ok corr_small) whfast_mk_all)
+              (conj (proj1 (forallb_forall whfast_mk_sharp corr_small) whfast_mk_sharp_all) whfast_mk17)). Qed.
+Print Assumptions C01_whfast_modifiedkick_order.
+
+(* COMPOSITION kernel with the 17th order corrector: eps h^18 + eps^2 h^4 + eps^3 h^3, sharp *)
+Theorem C01_whfast_composition_kernel_17 : wh_comp_ok 17 = true /\ wh_comp_sharp 17 = true.
+Proof. exact (conj wh_comp17 wh_comp17_sharp). Qed.
+Print Assumptions C01_whfast_composition_kernel_17.
+
+(* EOS PMLF4: order 4 (all words of length <= 4); PMLF6: grading (6,6,4) in the FREE algebra (full order 6 is refuted there:
+   it needs the RKN relation [B,[B,[A,B]]] = 0, true for N-body problems, which is not imposed); outer and inner (n=1) words,
+   tolerance 1e-12 (16-digit tables); sharp *)
+Theorem C01_eos_pmlf_order : pmlf_ok = true /\ pmlf_sharp = true.
+Proof. exact (conj pmlf_order pmlf_sharpness). Qed.
+Print Assumptions C01_eos_pmlf_order.
+
+(* corrector2 (a pure word in A, B): apply_corrector2(-1) inverts apply_corrector2(+1) only up to two-B words of length 3
+   (REFUTED at length 4), so a synchronised step with corrector2 carries an eps^2 h^3 term with the MODIFIEDKICK and
+   COMPOSITION kernels ((8,3,2) holds, (8,4,2) refuted, corrector 7), whereas with the exact inverse word (8,4,4) holds *)
+Theorem C01_whfast_corrector2 : corr2_facts = true.
+Proof. exact corr2. Qed.
+Print Assumptions C01_whfast_corrector2.
+
+(* WHFast DEFAULT kernel in democratic-heliocentric / WHDS coordinates (three letters A, B, J): palindromic, order 2
+   against exp(A+B+J), not order 3; step,step,synchronize with safe_mode 0 = two synchronised steps (words up to length 6) *)
+Theorem C01_whfast_dh_kernel : whfast_dh_ok = true.
+Proof. exact whfast_dh. Qed.
+Print Assumptions C01_whfast_dh_kernel.
+
+(* IAS15 tables: h[0] = 0 and each h[i], i=1..7, has a root of the degree-7 left Gauss-Radau polynomial
+   ((P_7+P_8)(2x-1)/x, built from the Legendre recurrence) within 1e-24, nodes separated and < 1;
+   rr[n(n-1)/2+i] = h[n]-h[i] to 1e-24; c rows = coefficients of prod (x-h[m]) to 1e-24; C.D = identity to 1e-22;
+   w = quadrature weights exact for degree <= 14 (to 1e-15 only: the w literals are that inaccurate) and not for 15 *)
+Theorem C01_ias15_tables :
+  ias15_h_ok = true /\ ias15_rr_ok = true /\ ias15_c_ok = true /\ ias15_cd_ok = true /\ ias15_w_ok = true /\ ias15_w_sharp = true.
+Proof. exact (conj ias15_h_radau (conj ias15_rr_differences (conj ias15_c_products (conj ias15_c_d_inverse ias15_w_moments)))). Qed.
+Print Assumptions C01_ias15_tables.
+
+(* BS: sequence n_k = 4k+2 (k < 9); the C/D recursion of extrapolate() with x_k = 1/n_k^2, run over columns 0..K (K = 1..8),
+   returns p(0) exactly for p = x^m, m <= K, and not for m = K+1 (polynomial extrapolation of degree K in h^2) *)
+Theorem C01_bs_extrapolation : bs_sequence_ok = true /\ bs_extrapolation_ok = true.
+Proof. exact bs_tables. Qed.
+Print Assumptions C01_bs_extrapolation.
+
+(* What the jerk kick of the bit-exactly validated model computes: for one pair (i,j) the x-increment of particle i is
+   2 v (d/d eps) [ - G m_j (d + eps e)_x / |d + eps e|^3 ] at eps = 0 with d = x_i - x_j, e = a_i - a_j: the directional derivative
+   of the pair acceleration along the relative acceleration (x component; y, z are the same formula with the roles permuted). *)
+Theorem C01_jerk_is_directional_derivative : jerk_directional_derivative_statement.   (* spelled out in C01/JerkDeriv.v *)
+Proof. exact jerk_is_directional_derivative_x. Qed.
+Print Assumptions C01_jerk_is_directional_derivative.
 
 (* Non-vacuity: the decision procedure rejects wrong claims (leapfrog of order 4; SABA2 of grading (6,2)),
    and the lists quantified over are the concrete non-empty lists of types. *)
